@@ -1,0 +1,54 @@
+//! Environment variables that carry provider credentials.
+//!
+//! The authority reads provider API keys from its own environment (`RIP_OPENRESPONSES_API_KEY`, the
+//! `OPENAI_API_KEY` / `OPENROUTER_API_KEY` fallbacks and every `{ "env": NAME }` reference of the loaded
+//! configuration). Tool subprocesses must not inherit those variables: whatever a tool prints ends up in
+//! event frames, artifacts and the next provider request (`env`, `printenv`, a crash report that dumps the
+//! environment), and secrets must never be emitted there (docs/03_contracts/config.md, "Secrets posture").
+//! A tool call that needs such a variable can still pass it explicitly through its own `env` argument.
+use std::collections::BTreeSet;
+use std::sync::{OnceLock, RwLock};
+
+/// Variables the authority itself reads provider keys from, whatever the configuration says.
+pub const PROVIDER_KEY_ENV_VARS: [&str; 3] = [
+    "RIP_OPENRESPONSES_API_KEY",
+    "OPENAI_API_KEY",
+    "OPENROUTER_API_KEY",
+];
+
+fn registered() -> &'static RwLock<BTreeSet<String>> {
+    static REGISTERED: OnceLock<RwLock<BTreeSet<String>>> = OnceLock::new();
+    REGISTERED.get_or_init(|| RwLock::new(BTreeSet::new()))
+}
+
+/// Registers further credential variables (the `{ "env": NAME }` references of a loaded configuration).
+/// Names stay registered for the lifetime of the process.
+pub fn register_secret_env_names<I, S>(names: I)
+where
+    I: IntoIterator<Item = S>,
+    S: Into<String>,
+{
+    let mut names = names
+        .into_iter()
+        .map(Into::into)
+        .filter(|name: &String| !name.trim().is_empty())
+        .peekable();
+    if names.peek().is_none() {
+        return;
+    }
+    if let Ok(mut set) = registered().write() {
+        set.extend(names);
+    }
+}
+
+/// Names of the variables that are removed from the environment of every tool subprocess.
+pub fn secret_env_names() -> Vec<String> {
+    let mut out: BTreeSet<String> = PROVIDER_KEY_ENV_VARS
+        .iter()
+        .map(|name| name.to_string())
+        .collect();
+    if let Ok(set) = registered().read() {
+        out.extend(set.iter().cloned());
+    }
+    out.into_iter().collect()
+}
